@@ -7,6 +7,7 @@
 mod proto;
 mod frame;
 mod cmd;
+mod song;
 mod tags;
 mod util;
 
@@ -31,6 +32,7 @@ const FAMILIES: &[Family] = &[
     Family { name: "proto", gen: proto::gen, exec: proto::exec },
     Family { name: "frame", gen: frame::gen, exec: frame::exec },
     Family { name: "cmd", gen: cmd::gen, exec: cmd::exec },
+    Family { name: "song", gen: song::gen, exec: song::exec },
 ];
 
 fn main() {
